@@ -25,6 +25,13 @@ BAND_LO, BAND_HI, BAND_HI_LOWNOISE = 0.4, 4.0, 20.0
 # drift.  Calibration (unchanged tree): noise-free pairs chi2(invalid)/chi2(valid) >= 474 (deterministic);
 # at 0.02 % noise (1200 runs) the invalid spectrum's estimated noise is >= 6.0 x the injected one (>= 8.3 except
 # CIRCUIT_16) while valid spectra stay <= 4.6 x, and chi2(invalid)/chi2(valid) >= 5.8 (heavy lower tail).
+# per-circuit baseline at 0.02 % noise: median of estimated/injected noise over 9 seeds on the unchanged tree (frozen); the
+# median over 5 fresh seeds must stay within a factor 2.5 of it (catches a pipeline that systematically leaves misfit or
+# fits the noise away on one kind of spectrum while single runs stay inside the wide per-run band)
+BASELINE_MEDIAN = {"CIRCUIT_1": 1.13, "CIRCUIT_2": 0.94, "CIRCUIT_3": 1.12, "CIRCUIT_4": 1.12, "CIRCUIT_5": 1.02, "CIRCUIT_6": 1.37, "CIRCUIT_7": 1.07, "CIRCUIT_8": 1.07,
+                   "CIRCUIT_9": 1.02, "CIRCUIT_10": 0.94, "CIRCUIT_11": 0.96, "CIRCUIT_12": 1.02, "CIRCUIT_13": 1.60, "CIRCUIT_14": 1.02, "CIRCUIT_15": 1.03, "CIRCUIT_16": 1.36,
+                   "CIRCUIT_17": 1.26, "CIRCUIT_18": 1.07, "CIRCUIT_19": 1.97}
+MEDIAN_FACTOR = 2.5
 DRIFT_FREE_MIN = 50.0
 DRIFT_PCT_MIN = {"CIRCUIT_16": 3.0}
 DRIFT_PCT_MIN_DEFAULT = 4.0
@@ -125,10 +132,54 @@ def run(ctx):
             real.append(None)
         draws.append((k0, Z, Zn, noise, seed))
         ctx.note_case(("noise", n, noise, seed))
+    # the intercept kernel and its call sites in _estimate_target_num_RC: the real calls made while two spectra are tested
+    # with default settings are recorded (wrapper around the function in the module's namespace) and replayed on the terms
+    import pyimpspec.analysis.kramers_kronig.exploratory as EX
+    import pyimpspec.analysis.kramers_kronig.algorithms.utility.pseudo_chi_squared as PC
+    for _ in range(40 if big else 10):
+        a, b, c, d = (rnd.uniform(-5, 5) for _ in range(4))
+        if a == c:
+            continue
+        lines.append(f"kerc intercept_of_lines s1={fl(a)};{fl(0.0)} o1={fl(b)};{fl(0.0)} s2={fl(c)};{fl(0.0)} o2={fl(d)};{fl(0.0)}")
+        real.append(float(PC._calculate_intercept_of_lines(a, b, c, d)))
+    calls = []
+    orig_icpt = EX._calculate_intercept_of_lines
+
+    def rec_icpt(s1, o1, s2, o2):
+        r_ = orig_icpt(s1, o1, s2, o2)
+        calls.append((float(s1), float(o1), float(s2), float(o2), float(r_)))
+        return r_
+    EX._calculate_intercept_of_lines = rec_icpt
+    try:
+        from pyimpspec import perform_kramers_kronig_test
+        for ident in rnd.sample(["CIRCUIT_1", "CIRCUIT_2", "CIRCUIT_5", "CIRCUIT_6", "CIRCUIT_17", "CIRCUIT_19"], 3 if big else 2):
+            try:
+                perform_kramers_kronig_test(generate_mock_data(ident, noise=rnd.choice([0.02, 0.1]), seed=rnd.randrange(1000))[0], num_procs=1)
+            except Exception:  # noqa
+                pass
+    finally:
+        EX._calculate_intercept_of_lines = orig_icpt
+    site_lines = []
+    for (s1, o1, s2, o2, r_) in calls[:200]:
+        # both call sites have the shape (slope of the descent, its intercept, 0.0, level): same term
+        site_lines.append((f"kerc target_main slope={fl(s1)};{fl(0.0)} intercept={fl(o1)};{fl(0.0)} ybest={fl(o2)};{fl(0.0)}", s2, r_))
+    ctx.counters["xcheck:target-call-sites"] = len(site_lines)
+    for l_, s2, r_ in site_lines:
+        lines.append(l_)
+        real.append(("site", s2, r_))
     out = common.run_driver(lines)
     nd = 0
     for l, r, o in zip(lines, real, out):
         if r is None:
+            continue
+        if isinstance(r, tuple):
+            t = o.split(" ")
+            zm = from_bits(t[1], t[2]) if t[0] == "ok" else complex("nan")
+            if r[1] != 0.0 or not (relerr(complex(r[2]), zm) <= 1e-12):
+                nd += 1
+                if nd <= 3:
+                    ctx.add_broken("correspondence", "translator/target-call-site", {"line": l, "third_argument": r[1], "python": r[2], "term": o,
+                                                                                     "detail": "_estimate_target_num_RC calls _calculate_intercept_of_lines(descent slope, descent intercept, 0.0, level)"})
             continue
         t = o.split(" ")
         zm = from_bits(t[1], t[2]) if t[0] == "ok" else complex("nan")
@@ -266,6 +317,12 @@ def run(ctx):
         cdc, noise, seed = ladder(rnd), rnd.choice(NOISES), rnd.randrange(10 ** 6)
         jobs.append(("cdc", cdc, noise, seed))
         meta.append(("noise", cdc, noise, seed))
+    med_circuits = sorted(BASELINE_MEDIAN) if big else rnd.sample(sorted(BASELINE_MEDIAN), 10)
+    for ident in med_circuits:
+        for _ in range(5):
+            seed = rnd.randrange(10 ** 6)
+            jobs.append(("mock", ident, 0.02, seed))
+            meta.append(("median", ident, 0.02, seed))
     drift = [d.get_identifier()[:-len("_INVALID")] for d in _definitions if d.get_identifier().endswith("_INVALID")]
     if not big:
         drift = rnd.sample(drift, 8)
@@ -283,6 +340,7 @@ def run(ctx):
         res = pool.map(_kk_job, jobs, chunksize=1)
     ratios = []
     chis = {}
+    med = {}
     for (kind, spec, noise, seed), r in zip(meta, res):
         inp = {"spectrum": spec, "noise_percent": noise, "seed": seed}
         ctx.note_case((kind, spec, noise, seed))
@@ -292,6 +350,9 @@ def run(ctx):
             continue
         if not r["ok"]:
             ctx.add_failing("kk-test-raises", inp, observed=r["error"], expected="a result", clause="run with default settings on a valid spectrum ... the automatic test returns a fit")
+            continue
+        if kind == "median":
+            med.setdefault(spec, []).append((r["pct"] / noise, seed))
             continue
         if kind == "noise":
             ratio = r["pct"] / noise
@@ -326,6 +387,16 @@ def run(ctx):
                 ctx.add_failing("drift-not-flagged", inp, observed=f"estimated noise of the drifting spectrum = {pr:.3g} x injected", expected=f">= {need} x", clause=clause)
             elif not (ratio >= DRIFT_PAIR_MIN):
                 ctx.add_failing("drift-not-flagged", inp, observed=f"chi2(invalid)/chi2(valid) = {ratio:.3g}", expected=f">= {DRIFT_PAIR_MIN}", clause=clause)
+    for ident, vals in med.items():
+        if len(vals) < 5:
+            continue
+        m = float(np.median([v for v, _ in vals]))
+        base = BASELINE_MEDIAN[ident]
+        ctx.counters["median:max-over-baseline"] = max(ctx.counters.get("median:max-over-baseline", 0.0), m / base)
+        ctx.counters["median:min-over-baseline"] = min(ctx.counters.get("median:min-over-baseline", 9e9), m / base)
+        if not (base / MEDIAN_FACTOR <= m <= base * MEDIAN_FACTOR):
+            ctx.add_failing("noise-not-tracked", {"spectrum": ident, "noise_percent": 0.02, "seeds": [s_ for _, s_ in vals]}, observed=f"median estimated/injected noise over 5 seeds = {m:.3g} (runs: {[round(v, 2) for v, _ in vals]})",
+                            expected=f"within a factor {MEDIAN_FACTOR} of the frozen baseline {base}", clause="returns a fit whose estimated noise level is of the order of the injected one - it neither fits the noise away nor leaves systematic misfit")
     if ratios:
         ctx.counters["noise:min-ratio"] = float(min(ratios))
         ctx.counters["noise:max-ratio"] = float(max(ratios))
